@@ -641,7 +641,14 @@ impl<P: SimPrefix> World<P> {
         let mut rng = Rng::new(order);
         let mut list: Vec<(Raw, u64)> = before.iter().map(|e| (e.raw, e.v)).collect();
         rng.shuffle(&mut list);
-        let ndup = if list.is_empty() { 0 } else { rng.range(1, 3) };
+        // sometimes a long input (sorting-based implementations behave differently above ~32 items)
+        let ndup = if list.is_empty() {
+            0
+        } else if rng.chance(1, 3) {
+            rng.range(34, 80).saturating_sub(list.len() as u64).max(3)
+        } else {
+            rng.range(1, 3)
+        };
         for j in 0..ndup {
             let (raw, _) = list[rng.below(list.len() as u64) as usize];
             let dup = (crate::packs::noisy::<P>(raw.key(), order ^ j), (1u64 << 45) + (order % 1_000_000) * 8 + j);
@@ -855,6 +862,11 @@ impl<P: SimPrefix> World<P> {
                                             push(EObs::Ref(r.payload));
                                             return;
                                         }
+                                        OAct::RewrapOrDefault => {
+                                            let r = Entry::Occupied(o).or_default();
+                                            push(EObs::Ref(r.payload));
+                                            return;
+                                        }
                                         OAct::Forget => {
                                             std::mem::forget(o);
                                             push(EObs::Forgot);
@@ -902,20 +914,39 @@ impl<P: SimPrefix> World<P> {
         });
         arm_fault(None);
         let obs = obs.into_inner();
+        let mut uar_panicked = false;
         let r = match r {
             Err(Abort::Violation(mut v)) => {
                 // a panic on use of an OccupiedEntry after remove(&mut self) has its own class
                 if obs.last() == Some(&EObs::UseAfterRemove) && v.sig.contains("unwrap-none") {
                     v.sig = "C20:panic:OccupiedEntry-use-after-remove".into();
+                    if crate::known::matches(&ctx.known, "C20", &v.sig).is_some() {
+                        // listed finding (KNOWN_FINDINGS.txt): note it and go on - the panic must
+                        // have left the map as it was after the remove()
+                        if !ctx.known_hits.contains(&v.sig) {
+                            ctx.known_hits.push(v.sig.clone());
+                        }
+                        ctx.stats.hit("known.OccupiedEntry-use-after-remove");
+                        uar_panicked = true;
+                        None
+                    } else {
+                        return Err(Abort::Violation(v));
+                    }
+                } else {
+                    return Err(Abort::Violation(v));
                 }
-                return Err(Abort::Violation(v));
             }
             Err(e) => return Err(e),
             Ok(r) => r,
         };
         let panicked = r.is_none();
-        if panicked {
+        if panicked && !uar_panicked {
             ctx.hit("probe.entry closure panicked");
+        }
+        if uar_panicked && ctx.is("C20") {
+            // size-consistency etc. after the (known) panic
+            let expm: Vec<Ent> = mw.model.iter().filter(|(kk, _)| **kk != key).map(|(kk, x)| Ent { key: *kk, raw: x.0, v: x.1 }).collect();
+            crate::packs2::valid_after_fault(ctx, &mw.real, &expm, "OccupiedEntry use after remove")?;
         }
         if obs.contains(&EObs::ORemove(0)) || obs.iter().any(|o| matches!(o, EObs::ORemove(_))) {
             mw.canonical = false;
@@ -1061,6 +1092,17 @@ impl<P: SimPrefix> World<P> {
                                         let x = model.get_mut(&key).unwrap();
                                         exp.push(EObs::Modified(x.1));
                                         x.1 = *v;
+                                    }
+                                    exp.push(EObs::Ref(model[&key].1));
+                                    break 'outer;
+                                }
+                                OAct::RewrapOrDefault => {
+                                    if let Some(old_raw) = removed {
+                                        if fire() {
+                                            break 'outer;
+                                        }
+                                        model.insert(key, (old_raw, DEFAULT_PAYLOAD));
+                                        ambiguous_raw = true;
                                     }
                                     exp.push(EObs::Ref(model[&key].1));
                                     break 'outer;
